@@ -269,6 +269,313 @@ theorem members_after_execution (s : State) (now : Int) (t : Tr) (ht : s.transit
   · simp [h3, deleteMembers]
   · simp [h3]
 
+/-! ## whole histories -/
+
+/-- one operation of a history; events arrive one by one in the order the tss end-blocker produces them -/
+inductive Op
+  | propose (auth : Bool) (now et : Int) (created : Option (Nat × List Nat))
+  | force (auth : Bool) (now et : Int) (gid : Nat) (ex : Bool)
+  | event (now : Int) (e : Event)
+  | endBlock (now : Int)
+
+/-- `none` = a Go panic inside a tss callback -/
+def apply (s : State) : Op → Option State
+  | .propose a n e c => some (propose s a n e c).1
+  | .force a n e g x => some (force s a n e g x).1
+  | .event n e => onEvent s n e
+  | .endBlock n => some (endBlock s n)
+
+/-- group ids handed to bandtss are real tss group ids: positive, and a freshly created group is not the current one -/
+def OpOk (s : State) : Op → Prop
+  | .propose _ _ _ (some (gid, _)) => gid ≠ 0 ∧ gid ≠ s.currentGroup
+  | .force _ _ _ gid _ => gid ≠ 0
+  | _ => True
+
+/-- the history invariant -/
+structure TInv (s : State) : Prop where
+  /-- the transition in progress was made for the current group and leads elsewhere -/
+  cur : ∀ t, s.transition = some t → t.current = s.currentGroup ∧ t.incoming ≠ s.currentGroup ∧ t.incoming ≠ 0
+  /-- the bandtss member list holds members of the current group and, only while WAITING_EXECUTION, of the incoming one -/
+  mem : ∀ a g, (a, g) ∈ s.bmembers → g ≠ 0 ∧ (g = s.currentGroup ∨ ∃ t, s.transition = some t ∧ t.status = stWaitingExec ∧ g = t.incoming)
+
+theorem addMembers_ok (s : State) (g : Nat) (h : ∀ a, (a, g) ∉ s.bmembers) :
+    addMembers s g = some { s with bmembers := s.bmembers ++ (s.groupMembers g).map (fun a => (a, g)) } := by
+  unfold addMembers
+  have : ¬ ((s.groupMembers g).any (fun a => s.bmembers.contains (a, g)) = true) := by
+    simp only [List.any_eq_true, not_exists, not_and]
+    intro a _; simp [h a]
+  rw [if_neg this]
+
+/-- adding the incoming group's members while moving to WAITING_EXECUTION keeps the invariant -/
+theorem tinv_add (s : State) (t : Tr) (h : TInv s) (ht : s.transition = some t) (s0 : State)
+    (e1 : s0.currentGroup = s.currentGroup) (e2 : s0.bmembers = s.bmembers) (e3 : s0.transition = s.transition) :
+    TInv { s0 with bmembers := s0.bmembers ++ (s0.groupMembers t.incoming).map (fun a => (a, t.incoming)),
+                   transition := some { t with status := stWaitingExec } } := by
+  obtain ⟨c1, c2, c3⟩ := h.cur t ht
+  refine ⟨?_, ?_⟩
+  · intro t' ht'
+    simp only [Option.some.injEq] at ht'
+    subst ht'
+    exact ⟨by rw [e1]; exact c1, by rw [e1]; exact c2, c3⟩
+  · intro a g hm
+    simp only [e1, e2] at hm ⊢
+    rcases List.mem_append.mp hm with h1 | h1
+    · obtain ⟨m1, m2⟩ := h.mem a g h1
+      refine ⟨m1, ?_⟩
+      rcases m2 with m2 | ⟨t0, q1, q2, q3⟩
+      · exact Or.inl m2
+      · rw [ht] at q1; cases q1
+        exact Or.inr ⟨_, rfl, rfl, q3⟩
+    · obtain ⟨a', _, e⟩ := List.mem_map.mp h1
+      cases e
+      exact ⟨c3, Or.inr ⟨_, rfl, rfl, rfl⟩⟩
+
+/-- no member of the incoming group is registered before the transition is WAITING_EXECUTION -/
+theorem incoming_absent (s : State) (t : Tr) (h : TInv s) (ht : s.transition = some t) (hs : t.status ≠ stWaitingExec) (a : Nat) :
+    (a, t.incoming) ∉ s.bmembers := by
+  intro hm
+  obtain ⟨_, m2⟩ := h.mem a t.incoming hm
+  obtain ⟨_, c2, _⟩ := h.cur t ht
+  rcases m2 with m2 | ⟨t0, q1, q2, _⟩
+  · exact c2 m2
+  · rw [ht] at q1; cases q1; exact hs q2
+
+/-- clearing the transition keeps the invariant when no incoming members are registered -/
+theorem tinv_clear (s : State) (h : TInv s) (hno : ∀ t, s.transition = some t → t.status ≠ stWaitingExec) (s0 : State)
+    (e1 : s0.currentGroup = s.currentGroup) (e2 : s0.bmembers = s.bmembers) : TInv { s0 with transition := none } := by
+  refine ⟨(fun t ht => by cases ht), ?_⟩
+  intro a g hm
+  simp only [e1, e2] at hm ⊢
+  obtain ⟨m1, m2⟩ := h.mem a g hm
+  refine ⟨m1, ?_⟩
+  rcases m2 with m2 | ⟨t0, q1, q2, _⟩
+  · exact Or.inl m2
+  · exact absurd q2 (hno t0 q1)
+
+/-- a change that touches neither the current group, the member list nor the transition -/
+theorem tinv_frame (s s0 : State) (h : TInv s) (e1 : s0.currentGroup = s.currentGroup) (e2 : s0.bmembers = s.bmembers)
+    (e3 : s0.transition = s.transition) : TInv s0 := by
+  refine ⟨fun t ht => by rw [e3] at ht; rw [e1]; exact h.cur t ht, ?_⟩
+  intro a g hm
+  rw [e2] at hm; rw [e1, e3]; exact h.mem a g hm
+
+theorem step_tinv (s : State) (op : Op) (h : TInv s) (ok : OpOk s op) : ∃ s', apply s op = some s' ∧ TInv s' := by
+  cases op with
+  | propose a n e c =>
+    refine ⟨_, rfl, ?_⟩
+    unfold propose
+    split
+    · exact h
+    · split
+      · exact h
+      · split
+        · exact h
+        · rename_i hnone
+          have hn : s.transition = none := by
+            cases ht : s.transition with
+            | none => rfl
+            | some t => simp [ht] at hnone
+          cases c with
+          | none => exact h
+          | some gm =>
+            obtain ⟨gid, members⟩ := gm
+            simp only [OpOk] at ok
+            refine ⟨?_, ?_⟩
+            · intro t ht
+              simp only [Option.some.injEq] at ht
+              subst ht
+              exact ⟨rfl, ok.2, ok.1⟩
+            · intro a' g hm
+              obtain ⟨m1, m2⟩ := h.mem a' g hm
+              refine ⟨m1, ?_⟩
+              rcases m2 with m2 | ⟨t0, q1, _, _⟩
+              · exact Or.inl m2
+              · rw [hn] at q1; cases q1
+  | force a n e gid ex =>
+    refine ⟨_, rfl, ?_⟩
+    unfold force
+    split
+    · exact h
+    · split
+      · exact h
+      · split
+        · exact h
+        · rename_i hnone
+          have hn : s.transition = none := by
+            cases ht : s.transition with
+            | none => rfl
+            | some t => simp [ht] at hnone
+          split
+          · exact h
+          · rename_i hsame
+            split
+            · exact h
+            · split
+              · exact h
+              · cases hadd : addMembers s gid with
+                | none => exact h
+                | some s1 =>
+                  simp only []
+                  have hs1 := addMembers_current s s1 gid hadd
+                  simp only [OpOk] at ok
+                  -- s1 = s with the members of gid appended
+                  unfold addMembers at hadd
+                  split at hadd
+                  · cases hadd
+                  · cases hadd
+                    refine ⟨?_, ?_⟩
+                    · intro t ht
+                      simp only [Option.some.injEq] at ht
+                      subst ht
+                      exact ⟨rfl, fun e => hsame e.symm, ok⟩
+                    · intro a' g hm
+                      simp only at hm ⊢
+                      rcases List.mem_append.mp hm with h1 | h1
+                      · obtain ⟨m1, m2⟩ := h.mem a' g h1
+                        refine ⟨m1, ?_⟩
+                        rcases m2 with m2 | ⟨t0, q1, _, _⟩
+                        · exact Or.inl m2
+                        · rw [hn] at q1; cases q1
+                      · obtain ⟨a'', _, e'⟩ := List.mem_map.mp h1
+                        cases e'
+                        exact ⟨ok, Or.inr ⟨_, rfl, rfl, rfl⟩⟩
+  | endBlock n =>
+    refine ⟨_, rfl, ?_⟩
+    unfold endBlock
+    cases ht : s.transition with
+    | none => exact h
+    | some t =>
+      simp only []
+      obtain ⟨c1, c2, c3⟩ := h.cur t ht
+      split
+      · exact h
+      · split
+        · rename_i hst
+          exact tinv_clear s h (fun t0 q => by rw [ht] at q; cases q; exact hst) s rfl rfl
+        · rename_i hst
+          have hw : t.status = stWaitingExec := by simpa using hst
+          -- execute: the incoming group becomes current, the old current group's members are removed
+          refine ⟨(fun t0 q => by cases q), ?_⟩
+          intro a' g hm
+          have hm' : (a', g) ∈ s.bmembers ∧ (t.current ≠ 0 → g ≠ t.current) := by
+            split at hm
+            · rename_i hc
+              simp only [deleteMembers, List.mem_filter, decide_eq_true_eq] at hm
+              exact ⟨hm.1, fun _ => hm.2⟩
+            · rename_i hc
+              exact ⟨hm, fun hne => absurd hne hc⟩
+          obtain ⟨m1, m2⟩ := h.mem a' g hm'.1
+          refine ⟨m1, Or.inl ?_⟩
+          show g = t.incoming
+          rcases m2 with m2 | ⟨t0, q1, _, q3⟩
+          · -- a member of the old current group: it was deleted (the old current group is not 0 since g ≠ 0)
+            exfalso
+            have : t.current ≠ 0 := by rw [c1, ← m2]; exact m1
+            exact hm'.2 this (by rw [c1]; exact m2)
+          · rw [ht] at q1; cases q1; exact q3
+  | event n e =>
+    cases e with
+    | creationCompleted gid signOk sid =>
+      simp only [apply, onEvent]
+      cases ht : s.transition with
+      | none => exact ⟨_, rfl, tinv_frame s _ h rfl rfl (by simp [ht])⟩
+      | some t =>
+        simp only []
+        split
+        · exact ⟨_, rfl, tinv_frame s _ h rfl rfl (by simp [ht])⟩
+        · rename_i hcond
+          simp only [not_or, Decidable.not_not] at hcond
+          obtain ⟨hg, hst, _⟩ := hcond
+          subst hg
+          have hstat : t.status ≠ stWaitingExec := by rw [hst]; decide
+          split
+          · -- first group: members added directly
+            have habs := incoming_absent s t h ht hstat
+            rw [addMembers_ok { s with transition := some t, groupActive := fun g => if g = t.incoming then true else s.groupActive g } t.incoming (fun a => habs a)]
+            exact ⟨_, rfl, tinv_add s t h ht { s with transition := some t, groupActive := fun g => if g = t.incoming then true else s.groupActive g } rfl rfl ht.symm⟩
+          · split
+            · refine ⟨_, rfl, ?_⟩
+              refine ⟨?_, ?_⟩
+              · intro t' q
+                simp only [Option.some.injEq] at q
+                subst q
+                exact h.cur t ht
+              · intro a' g hm
+                obtain ⟨m1, m2⟩ := h.mem a' g hm
+                refine ⟨m1, ?_⟩
+                rcases m2 with m2 | ⟨t0, q1, q2, _⟩
+                · exact Or.inl m2
+                · rw [ht] at q1; cases q1; exact absurd q2 hstat
+            · exact ⟨_, rfl, tinv_clear s h (fun t0 q => by rw [ht] at q; cases q; exact hstat)
+                { s with groupActive := fun g => if g = t.incoming then true else s.groupActive g } rfl rfl⟩
+    | creationFailed gid =>
+      simp only [apply, onEvent]
+      cases ht : s.transition with
+      | none => exact ⟨s, rfl, h⟩
+      | some t =>
+        simp only []
+        split
+        · rename_i hc
+          exact ⟨_, rfl, tinv_clear s h (fun t0 q => by rw [ht] at q; cases q; rw [hc.2]; decide) s rfl rfl⟩
+        · exact ⟨s, rfl, h⟩
+    | creationExpired gid =>
+      simp only [apply, onEvent]
+      cases ht : s.transition with
+      | none => exact ⟨s, rfl, h⟩
+      | some t =>
+        simp only []
+        split
+        · rename_i hc
+          exact ⟨_, rfl, tinv_clear s h (fun t0 q => by rw [ht] at q; cases q; rw [hc.2]; decide) s rfl rfl⟩
+        · exact ⟨s, rfl, h⟩
+    | signingCompleted sid =>
+      simp only [apply, onEvent]
+      cases ht : s.transition with
+      | none => exact ⟨s, rfl, h⟩
+      | some t =>
+        simp only []
+        split
+        · rename_i hc
+          have hstat : t.status ≠ stWaitingExec := by rw [hc.2]; decide
+          rw [addMembers_ok s t.incoming (incoming_absent s t h ht hstat)]
+          exact ⟨_, rfl, tinv_add s t h ht s rfl rfl rfl⟩
+        · exact ⟨s, rfl, h⟩
+    | signingFailed sid =>
+      simp only [apply, onEvent]
+      cases ht : s.transition with
+      | none => exact ⟨s, rfl, h⟩
+      | some t =>
+        simp only []
+        split
+        · rename_i hc
+          exact ⟨_, rfl, tinv_clear s h (fun t0 q => by rw [ht] at q; cases q; rw [hc.2]; decide) s rfl rfl⟩
+        · exact ⟨s, rfl, h⟩
+
+/-- run a history; `none` = some callback panicked -/
+def run : List Op → State → Option State
+  | [], s => some s
+  | op :: rest, s => match apply s op with
+    | none => none
+    | some s' => run rest s'
+
+/-- the operations of a history are well-formed relative to the state they meet -/
+def RunOk : List Op → State → Prop
+  | [], _ => True
+  | op :: rest, s => OpOk s op ∧ ∀ s', apply s op = some s' → RunOk rest s'
+
+/-- PROPERTY (over EVERY history of proposals, forced transitions, tss callbacks in any order and end-blocks): no callback
+    ever panics (`AddMembers` inside OnGroupCreationCompleted / OnSigningCompleted cannot fail), the transition in progress
+    always belongs to the current group, and the bandtss member list only ever holds the current group's members plus —
+    exactly while WAITING_EXECUTION — the incoming group's -/
+theorem transitions_never_panic_and_members_follow (ops : List Op) (s : State) (h : TInv s) (ok : RunOk ops s) :
+    ∃ s', run ops s = some s' ∧ TInv s' := by
+  induction ops generalizing s with
+  | nil => exact ⟨s, rfl, h⟩
+  | cons op rest ih =>
+    obtain ⟨s1, e1, i1⟩ := step_tinv s op h ok.1
+    simp only [run, e1]
+    exact ih s1 i1 (ok.2 s1 e1)
+
 /-! non-vacuity -/
 def demo : State :=
   { currentGroup := 1, transition := some ⟨stWaitingExec, 100, 5, 2, 1, false⟩, groupMembers := fun g => if g = 1 then [10, 11] else [20, 21],
@@ -278,5 +585,16 @@ example : (endBlock demo 99).currentGroup = 1 ∧ (endBlock demo 99).transition 
 example : (endBlock { demo with transition := some ⟨stWaitingSign, 100, 5, 2, 1, false⟩ } 100).currentGroup = 1 := by decide
 example : (propose { demo with transition := none } true 0 5 (some (3, [30]))).2 = Err.ok := by decide
 example : (propose demo true 0 5 (some (3, [30]))).2 = Err.inProgress := by decide
+/-- the demo state (transition WAITING_EXECUTION, members of both groups registered) satisfies the history invariant -/
+example : TInv demo := by
+  refine ⟨?_, ?_⟩
+  · intro t ht; simp [demo] at ht; subst ht; decide
+  · intro a g hm
+    simp [demo] at hm
+    rcases hm with ⟨rfl, rfl⟩ | ⟨rfl, rfl⟩ | ⟨rfl, rfl⟩ | ⟨rfl, rfl⟩
+    · exact ⟨by decide, Or.inl rfl⟩
+    · exact ⟨by decide, Or.inl rfl⟩
+    · exact ⟨by decide, Or.inr ⟨_, rfl, rfl, rfl⟩⟩
+    · exact ⟨by decide, Or.inr ⟨_, rfl, rfl, rfl⟩⟩
 
 end C18
